@@ -627,7 +627,12 @@ pub fn obs(w: &World, s: &Snap, o: &Outcome) -> Vec<String> {
 /// second oracle: /repo's own state invariant checker (state/src/check.rs) run on the whole state
 /// tree; returns the messages that concern the registry, the datacap token or claims
 pub fn state_check_messages(v: &Vvm) -> Vec<String> {
+    // the checker takes `epoch - 1` as the last completed epoch: claims made in the current epoch
+    // would look as if they started in the future, so check from the next epoch
+    let e = v.epoch();
+    v.set_epoch(e + 1);
     let acc = fil_actors_integration_tests::util::check_invariants(v, &fil_actors_runtime::runtime::Policy::default(), None).unwrap();
+    v.set_epoch(e);
     acc.messages()
         .into_iter()
         .filter(|m| {
